@@ -436,16 +436,33 @@ def precWStep (dt : Data α) (ω : Draws α) (st : State α) : State α :=
 
 /-! ### the sweep: `mcmc_step` -/
 
-def steps (dt : Data α) (ω : Draws α) : List (State α → State α) :=
-  [reconstructMu dt, alphaStep dt, w0Step dt ω, v0Step dt ω, wStep dt ω, v2Step dt ω, v1Step dt ω,
+/-- the twelve stages after `_reconstruct_Mu`, in the order of `mcmc_step` -/
+def stepsTail (dt : Data α) (ω : Draws α) : List (State α → State α) :=
+  [alphaStep dt, w0Step dt ω, v0Step dt ω, wStep dt ω, v2Step dt ω, v1Step dt ω,
    precW0Step dt ω, precV0Step dt ω, precObsStep dt ω, precV2Step dt ω, precV1Step dt ω, precWStep dt ω]
 
-def mcmcStep (dt : Data α) (ω : Draws α) (st : State α) : State α :=
-  (steps dt ω).foldl (fun s f => f s) st
+def steps (dt : Data α) (ω : Draws α) : List (State α → State α) := reconstructMu dt :: stepsTail dt ω
+
+/-- run a list of stages; second component: the state after each stage -/
+def runTrace {σ : Type} (fs : List (σ → σ)) (s : σ) (acc : List σ) : σ × List σ :=
+  fs.foldl (fun (a : σ × List σ) f => (f a.1, a.2 ++ [f a.1])) (s, acc)
+
+def mcmcStep (dt : Data α) (ω : Draws α) (st : State α) : State α := (runTrace (steps dt ω) st []).1
 
 /-- the states after each of the 13 stages of a sweep (for the correspondence run) -/
-def mcmcTrace (dt : Data α) (ω : Draws α) (st : State α) : List (State α) :=
-  ((steps dt ω).foldl (fun (acc : State α × List (State α)) f => let s := f acc.1; (s, acc.2 ++ [s])) (st, [])).2
+def mcmcTrace (dt : Data α) (ω : Draws α) (st : State α) : List (State α) := (runTrace (steps dt ω) st []).2
+
+/-- a history: consecutive sweeps, one choice log each -/
+def runSweeps (dt : Data α) (ωs : List (Draws α)) (st : State α) : State α :=
+  ωs.foldl (fun s ω => mcmcStep dt ω s) st
+
+/-- the documented visiting order of one sweep -/
+def schedule (nC nT D : Nat) : List Site :=
+  [Site.alpha] ++ (List.range nC).map Site.W0 ++ (List.range nT).map Site.V0 ++ (List.range nC).map Site.W
+    ++ (List.range nT).map Site.V2 ++ (List.range nT).map Site.V1
+    ++ [Site.tau0, Site.phi0aux, Site.phi0, Site.eta0aux, Site.eta0, Site.prec, Site.phi2aux, Site.phi2, Site.eta2aux,
+        Site.eta2, Site.phi1aux, Site.phi1, Site.eta1aux, Site.eta1]
+    ++ (List.range D).map Site.gam
 
 /-! ### export and prediction (`get_model_state`, module-level `predict`, `predict_conditional_variance`) -/
 
